@@ -469,7 +469,7 @@ def main(ctx):
         ctx.sources = {k: v for k, v in consumed.items()
                        if any(s in k for s in ('_read_files', '_read_str_data', 'write_data', 'read_array',
                                                '_generate_constraints', 'write_cnt', '_read_node_groups',
-                                               '_merge_groups'))}
+                                               '_merge_groups', '_read_cnt_cflux'))}
         lib.write_if_changed(lib.COQ / 'C01' / 'gen' / 'Tables.v', c03_cnt.emit_tables(tables))
         lib.write_if_changed(lib.COQ / 'C03' / 'gen' / 'CntSections.v', c03_cnt.emit_sections(tables))
     except (c01_tables.TranslateError, SyntaxError, OSError, KeyError, ValueError) as e:
@@ -584,7 +584,7 @@ def main(ctx):
     res3 = cm.run_child(ctx, pjobs + wjobs, 'phase3') if pjobs else {}
     pure_items = []
     for pc in pcases:
-        pure_items.append((pc['id'], f'lines_eqb (show_rcntx (read_cntx_with Tables.ignore_pats '
+        pure_items.append((pc['id'], f'lines_eqb (show_rcntx (read_cntx_with cflux_per_block Tables.ignore_pats '
                                      f'[("ALL", {lib.coq_list([lib.coq_Z(i) for i in base_ids])})] '
                                      f'{cm.coq_lines(pc["cnt"])})) {cm.coq_lines(show_impl_x(res3["p%d" % pc["id"]]))}'))
         ctx.count('pure_shape:' + pc['shape'])
@@ -599,7 +599,7 @@ def main(ctx):
             pure_items.append((idx, f'lines_eqb (show_lines (write_cntx_of cnt_sections {x})) '
                                     f'{cm.coq_lines(split_lines(r["cnt"]))}'))
             pure_items.append((idx + 500, f'lines_eqb (match write_cntx_of cnt_sections {x} with Ok ls => '
-                                          f'show_rcntx (read_cntx_with Tables.ignore_pats [] ls) | Err _ => ["ERROR"] end) '
+                                          f'show_rcntx (read_cntx_with cflux_per_block Tables.ignore_pats [] ls) | Err _ => ["ERROR"] end) '
                                           f'{cm.coq_lines(show_impl_x(r))}'))
         else:
             pure_items.append((idx, 'false'))
